@@ -14,7 +14,7 @@ var (
 		{{"app", "a"}}, {{"app", "a"}, {"ver", "1"}}, {{"app", "b"}}, nil,
 		{{"app", "a"}, {"ver", "2"}, {"x", "y"}}, {{"ver", "1"}, {"app", "a"}}, {{"app", "b"}, {"ver", "1"}},
 	}
-	portPool  = []uint32{80, 8080, 9000}
+	portPool  = []uint32{80, 8080, 9000, 9090, 8081, 81}
 	queryPort = []uint32{80, 8080, 9000, 7777}
 	realModes = []string{"UNSET", "DISABLE", "PERMISSIVE", "STRICT"}
 	drToks    = []string{"nil", "nil", "nil", "DISABLE", "SIMPLE", "MUTUAL", "ISTIO_MUTUAL"}
@@ -29,8 +29,10 @@ func pickMode(r *wire.Rng) string {
 
 func genPorts(r *wire.Rng) []portMode {
 	var out []portMode
-	for _, p := range portPool {
-		if r.Chance(1, 2) {
+	for i, p := range portPool {
+		// the first three ports as before; the others (9090 auto service port, 8081 target port of
+		// service port 81, 81 itself) less often
+		if (i < 3 && r.Chance(1, 2)) || (i >= 3 && r.Chance(1, 4)) {
 			out = append(out, portMode{p, pickMode(r)})
 		}
 	}
@@ -183,6 +185,23 @@ func gen(stream string, seed uint64, n int, outp string) {
 			}
 			switch stream {
 			case "inbound":
+				if r.Chance(1, 3) {
+					// a Sidecar with ingress listeners (some with user TLS) instead of service-derived chains
+					var ing []string
+					for _, p := range []uint32{80, 8080, 9000, 9090} {
+						if r.Chance(1, 2) {
+							proto := "tcp"
+							if r.Chance(1, 2) {
+								proto = "http"
+							}
+							ing = append(ing, strconv.Itoa(int(p))+":"+proto+":"+wire.B(r.Chance(1, 3)))
+						}
+					}
+					if len(ing) > 0 {
+						out.Line("ils", wire.Enc(ns), encLabels(labels), wire.EncList(ing))
+						break
+					}
+				}
 				out.Line("il", wire.Enc(ns), encLabels(labels))
 			case "ambient":
 				out.Line("aq", wire.Enc(ns), encLabels(labels), encPortList(queryPort))
@@ -193,8 +212,20 @@ func gen(stream string, seed uint64, n int, outp string) {
 				}
 				out.Line("q", wire.Enc(ns), encLabels(labels), svc, encPortList(queryPort))
 				if r.Chance(1, 2) {
+					// the client: its namespace and the namespaces of the services its sidecar scope imports
+					// (mostly including the endpoint's namespace, as it must to reach the service at all)
+					client := wire.Pick(r, nsPool)
+					var imported []string
+					if r.Chance(5, 6) {
+						imported = append(imported, ns)
+					}
+					for _, n := range nsPool {
+						if r.Chance(1, 4) {
+							imported = append(imported, n)
+						}
+					}
 					out.Line("chk", wire.Enc(ns), encLabels(labels), strconv.Itoa(int(wire.Pick(r, queryPort))),
-						wire.B(r.Chance(4, 5)), wire.Pick(r, drToks))
+						wire.B(r.Chance(4, 5)), wire.Pick(r, drToks), wire.Enc(client), wire.EncList(imported), wire.B(r.Chance(1, 8)))
 				}
 			}
 		}
